@@ -2,6 +2,7 @@ package flood
 
 const (
 	c12N              = 4
-	c12LateAnnouncers = 3
 	c12Announcers     = 1
+	c12LateN          = 3
+	c12LateAnnouncers = 3
 )
